@@ -531,7 +531,12 @@ func boostEmptyKey(t *rapid.T) (map[string]interface{}, []Step, string) {
 		root[k2] = map[string]interface{}{"": inner(), k: instScalar(t)}
 	}
 	var names []string
-	switch rapid.IntRange(0, 6).Draw(t, "ekpath") {
+	switch rapid.IntRange(0, 8).Draw(t, "ekpath") {
+	case 7:
+		// an indexed step below the empty key
+		return root, []Step{{"", -1}, {k2, 0}, {k, -1}}, k
+	case 8:
+		return root, []Step{{"", -1}, {k2, rapid.IntRange(0, 2).Draw(t, "ekidx")}}, k
 	case 0:
 		names = []string{"", k}
 	case 1:
